@@ -12,13 +12,20 @@
       false  snapshot: no entry point tests the index (recorded finding duplicate-index-labels; theorems
              C09_dict_scan_equals_independent_any_worker_partial / C09_duplicate_labels_collapse_refuted apply)
       true   after fixes/C09-duplicate-labels-refused.diff: every dict-keyed entry point starts with
-             [_require_unique_index(table)] (theorem C09_dict_scan_checked_total applies) *)
+             [_require_unique_index(table)] (theorem C09_dict_scan_checked_total applies)
+    [C09_cache_repaired]
+      false  snapshot: scan.steady_state / mc.steady_state accept a table with equal index labels together
+             with a result cache, whose files are named after the label (recorded finding
+             cached-duplicate-labels; regression theorem C09_cached_duplicate_labels_refuted applies)
+      true   after fixes/C09-cached-steady-state-unique-index.diff: both start with
+             [if cache is not None: _require_unique_index(table)] (theorem C09_cache_checked_total applies) *)
 From Coq Require Import List.
 From Scan Require Import ScanModel.
 Import ListNotations.
 
 Definition C09_tc_repaired : bool := true.    (* SWITCH tc *)
 Definition C09_dups_repaired : bool := true.  (* SWITCH dups *)
+Definition C09_cache_repaired : bool := true. (* SWITCH cache *)
 
 Definition C09_expected_tc : tc_axis := if C09_tc_repaired then TcWithStart else TcRequested.
 Definition C09_expected_ptc : ptc_axis := if C09_tc_repaired then PtcJoined else PtcRequested.
@@ -27,15 +34,17 @@ Definition C09_expected_dups : dup_policy := if C09_dups_repaired then DupRefuse
 Definition expected_facts : scan_facts :=
   mkScanFacts true true true true true true PhStepGrid C09_expected_tc C09_expected_ptc C09_expected_dups.
 
-(** the nine entry points: default worker, container, how the pool is chosen, index test *)
+(** the nine entry points: default worker, container, how the pool is chosen, index test, what happens
+    to [y0], index test in front of a cached run *)
 Definition expected_entry_points : list entry_point :=
   let d := refuses C09_expected_dups in
-  [ mkEP ScanSteadyState        WkSteadyState        CList        ParByFlag     false;
-    mkEP ScanTimeCourse         WkTimeCourse         CDict        ParByFlag     d;
-    mkEP ScanProtocol           WkProtocol           CDict        ParByFlag     d;
-    mkEP ScanProtocolTimeCourse WkProtocolTimeCourse CDict        ParByFlag     d;
-    mkEP McSteadyState          WkSteadyState        CList        ParMaxWorkers false;
-    mkEP McTimeCourse           WkTimeCourse         CDict        ParMaxWorkers d;
-    mkEP McProtocol             WkProtocol           CDict        ParMaxWorkers d;
-    mkEP McProtocolTimeCourse   WkProtocolTimeCourse CDict        ParMaxWorkers d;
-    mkEP McScanSteadyState      WkParameterScan      CDictOfScans ParMaxWorkers d ].
+  let c := C09_cache_repaired in
+  [ mkEP ScanSteadyState        WkSteadyState        CList        ParByFlag     false Y0IntoModel c;
+    mkEP ScanTimeCourse         WkTimeCourse         CDict        ParByFlag     d     Y0IntoModel false;
+    mkEP ScanProtocol           WkProtocol           CDict        ParByFlag     d     Y0IntoModel false;
+    mkEP ScanProtocolTimeCourse WkProtocolTimeCourse CDict        ParByFlag     d     Y0IntoModel false;
+    mkEP McSteadyState          WkSteadyState        CList        ParMaxWorkers false Y0IntoModel c;
+    mkEP McTimeCourse           WkTimeCourse         CDict        ParMaxWorkers d     Y0IntoModel false;
+    mkEP McProtocol             WkProtocol           CDict        ParMaxWorkers d     Y0IntoModel false;
+    mkEP McProtocolTimeCourse   WkProtocolTimeCourse CDict        ParMaxWorkers d     Y0IntoModel false;
+    mkEP McScanSteadyState      WkParameterScan      CDictOfScans ParMaxWorkers d     Y0IntoModel false ].
